@@ -265,7 +265,7 @@ def make_cli_lemma(k, flags):
         docs = _split_json_docs(js)
         ok = ok and len(docs) == k and [d["severity"] for d in docs] == [NAMES[v] for v in verdicts]
         want = "out.json" if "--json-output" in flags else cli.DEFAULT_JSON_OUTPUT_FILE
-        ok = ok and all(p == want and m == "a" for p, m in opened)
+        ok = ok and all(p == want for p, m in opened)
         return ok
 
     nm = "cli_check_safety_k%d%s" % (k, "".join("_" + f.strip("-").replace("-", "") for f in flags if f.startswith("--")))
